@@ -463,6 +463,7 @@ def r_slice(c):
     m = c.model
     fd = m.func("pytato.utils._normalize_slice")
     where = m.loc("pytato.utils", fd)
+    fd = m.inlined(fd)      # a clamping helper shared by start and stop is seen through
     from pta.pat import find
     un = find(fd, "$a, $b, $c = $s.start, $s.stop, $s.step")
     if len(un) != 1:
